@@ -10,6 +10,7 @@ import (
 	"regexp"
 	"sort"
 	"strings"
+	"sync"
 	"sync/atomic"
 
 	"verif/internal/core"
@@ -111,6 +112,17 @@ func runC16(env *core.Env) {
 		if m, ok := moveJSONFlag(r); ok {
 			cases = append(cases, c10Case{Site: "extra", Req: m})
 		}
+		// -q / -v change what goes to stderr, never the one JSON value on stdout
+		if len(r.Args) > 1 && r.Args[0] == "--json" && r.Args[1] != "-q" && r.Args[1] != "-v" {
+			for _, fl := range []string{"-q", "-v"} {
+				q := r
+				q.Args = append([]string{"--json", fl}, r.Args[1:]...)
+				cases = append(cases, c10Case{Site: "extra", Req: q})
+				q2 := r
+				q2.Args = append(append([]string{}, r.Args...), fl)
+				cases = append(cases, c10Case{Site: "extra", Req: q2})
+			}
+		}
 	}
 	type job struct {
 		pre int
@@ -128,7 +140,8 @@ func runC16(env *core.Env) {
 		preObs[i] = core.ObserveW(w0, w0.Proj)
 	}
 	conf := newConformer(len(jobs)/300+1, 320)
-	var evals, okCount, failCount, truthChecks int64
+	var evals, okCount, failCount, truthChecks, spawnedFailures int64
+	var spawnedClasses sync.Map
 	shapes := newCounter()
 	samples := &sampleSet{max: 10}
 	env.Parallel(len(jobs), func(w *core.Worker, i int) {
@@ -154,6 +167,20 @@ func runC16(env *core.Env) {
 		}
 		if res.Exit != 0 {
 			atomic.AddInt64(&failCount, 1)
+			// the error line is printed by cmd/ergo's exit path, which the in-process server only mirrors: the first
+			// request of every (command, error shape, quiet?) class is run once more as a spawned production binary
+			key := cls + "|" + errClass(res.Err) + "|" + fmt.Sprint(contains(req.Args, "-q"))
+			if _, dup := spawnedClasses.LoadOrStore(key, true); !dup && !res.Timeout {
+				pre.Materialize(w.Proj)
+				sreq := req
+				sreq.RandBase = -1
+				sres := w.Spawn(sreq)
+				atomic.AddInt64(&spawnedFailures, 1)
+				if sres.Exit != 0 && len(bytes.TrimSpace(sres.Err)) == 0 {
+					bad("failure-without-stderr", "spawned production binary: "+sres.String(), Assert{Kind: "exit_nonzero", Step: 1}, Assert{Kind: "err_empty", Step: 1})
+				}
+				pre.Materialize(w.Proj)
+			}
 			if len(bytes.TrimSpace(res.Err)) == 0 {
 				bad("failure-without-stderr", res.String(), Assert{Kind: "exit_nonzero", Step: 1})
 			}
@@ -357,7 +384,8 @@ func runC16(env *core.Env) {
 	}
 	validated := conf.run(env)
 	env.Finish("model_checking", map[string]interface{}{
-		"stdout_unwritable_runs": fullRuns, "stdout_unwritable_skipped": fullSkipped,
+		"failure_classes_rechecked_on_spawned_binary": spawnedFailures,
+		"stdout_unwritable_runs":                      fullRuns, "stdout_unwritable_skipped": fullSkipped,
 		"states": len(pres), "transitions": evals, "traces_validated_against_impl": validated, "samples": samples.list,
 		"evaluations": evals, "distinct_nontrivial": shapes.len(), "exhaustive": env.TimeLeft(),
 		"rule":       "the C10 request catalogue (every command, field combination, input mode, failing variants) + success-oriented requests, with --json before and after the subcommand, on 6 pre-states (rich, fresh, compacted, with a dependency chain, with a torn tail, with a complete last event lacking its newline); every success-oriented request once more with stdout on /dev/full (must exit non-zero with a message); distinct = (command family, outcome shape)",
